@@ -247,6 +247,17 @@ fn main() {
         m[0] = r(-1);
         us.push(m); // x^d - 1
         us.push((0..=d).map(|k| if k % 2 == 0 { rq(1, 2) } else { r(-3) }).collect());
+        // monomials and polynomials whose low coefficients all vanish (x^s times a short polynomial)
+        let mut m = vec![r(0); d + 1];
+        m[d] = r(1);
+        us.push(m);
+        for sft in [d - 1, d - 2, d / 2] {
+            let mut m = vec![r(0); d + 1];
+            for k in sft..=d {
+                m[k] = r([3, -1, 2, 1][(k - sft) % 4]);
+            }
+            us.push(m);
+        }
     }
     let mut vs: Vec<Vec<Rat>> = vec![];
     for d in 0..=6usize {
@@ -257,6 +268,10 @@ fn main() {
         vs.push(m);
         let mut m = vec![r(1); d + 1];
         m[d] = r(-1);
+        vs.push(m);
+        // monomial divisors c x^d
+        let mut m = vec![r(0); d + 1];
+        m[d] = r(2);
         vs.push(m);
     }
     let (nus, nvs) = (us.len() as u64, vs.len() as u64);
